@@ -287,7 +287,100 @@ def c02(tier):
         "section names / keys that are meant to be distinct are assumed distinct, re-opened sections / repeated keys are assumed equal (relations generated with the layout)"],
         "explanation": "bounded model checking of the real parser on generated conventional files with the expected result constructed alongside"}
 
-REGISTRY = {"C02": c02, "C10": c10, "C11": c11, "C03": c03, "C04": c04, "C08": c08, "C09": c09}
+NAMESETS = {"A": ["9.conf", "x.con", "10.conf"], "B": ["a.conf", ".conf", "B.conf"], "C": ["9.conf", "a.conf", ".h.conf"]}
+ENTRYNAMES = ["readDirsHistory", "readDirsHistoryWithCallback", "readDirs", "readDirsWithCallback", "readConfig", "readConfigWithCallback"]
+
+def d_inst(entry, layers, nameset, fullpat, suffix="conf", faults=0, timeout=150, keysel=None):
+    """fullpat: list per layer of [main present, dropin dir present, presence per candidate...]"""
+    pattern = [row[2:] for row in fullpat]
+    mainp = [row[0] for row in fullpat]; dirp = [row[1] for row in fullpat]
+    names = NAMESETS[nameset]
+    nf = len(names)
+    sufarg = "NULL" if suffix is None else '"%s"' % suffix
+    sufdot = "" if not suffix else (suffix if suffix.startswith(".") else "." + suffix)
+    hdr = "#define LAYERS %d\n#define NF %d\nstatic const char *CAND[NF] = {%s};\nstatic const unsigned char PRESENT[LAYERS][NF] = {%s};\n#define SUFFIX_ARG %s\n#define SUFFIX_DOT \"%s\"\n#define ENTRY %d\n#define FAULTS %d\nstatic const unsigned char MAINP[LAYERS] = {%s};\nstatic const unsigned char DIRP[LAYERS] = {%s};\n" % (
+        layers, nf, ",".join('"%s"' % n for n in names), ",".join("{%s}" % ",".join(str(b) for b in row) for row in pattern), sufarg, sufdot, entry, faults,
+        ",".join(str(b) for b in mainp), ",".join(str(b) for b in dirp))
+    nfiles0 = layers * (nf + 1)
+    if keysel == "first-unique":
+        # the first drop-in of the lowest layer (byte-wise order, carrying the suffix) is the only file defining k1
+        cands = sorted((n, c) for c, n in enumerate(names) if len(n) > len(sufdot) and n.endswith(sufdot))
+        ks = ["2"] * nfiles0
+        for l in range(layers): ks[l] = "1"
+        if cands: ks[layers + cands[0][1]] = "1"
+        keysel = "".join(ks)
+    if keysel is None:
+        import random, zlib
+        keysel = "".join(random.Random(zlib.crc32(str(fullpat).encode())).choice("12") for _ in range(nfiles0))
+    hdr += 'static const char KEYSEL[] = "%s";\n' % keysel
+    ldirs = ["/u", "/e"] if layers == 2 else ["/u", "/r", "/e"]
+    mains = [d + "/c" + sufdot for d in ldirs]
+    hdr += "static const char *MAINPATH[LAYERS] = {%s};\nstatic const char *DDPATH[LAYERS] = {%s};\nstatic const char *FPATH[LAYERS][NF] = {%s};\n" % (
+        ",".join('"%s"' % m for m in mains), ",".join('"%s.d"' % m for m in mains),
+        ",".join("{%s}" % ",".join('"%s.d/%s"' % (m, n) for n in names) for m in mains))
+    pat = "_".join("".join(str(b) for b in row) for row in fullpat)
+    nfiles = layers * (nf + 1)
+    d = {"STRCAP": 40, "VCAP": max(nfiles + 2, 6), "VFS_MAXNODES": layers * (nf + 3) + 1, "VFS_CONTENT": 10, "VFS_MAXEV": 48, "CALLOC_N": max(nfiles + 2, 6)}
+    name = "d-%s-L%d-%s-%s-suf%s%s" % (ENTRYNAMES[entry], layers, nameset, pat, ("NULL" if suffix is None else "empty" if suffix == "" else suffix.replace(".", "dot")), "-faults" if faults else "")
+    uw = lib_unwinds(nfiles * 2 + 2, 3, alloc=nfiles * 2 + 2) + [
+        (r"readconfig\.c", r"for \(int i = parse_dirs_count", layers + 1), (r"readconfig\.c", r"i < parse_dirs_count", layers + 1), (r"readconfig\.c", r"i < conf_count", 2),
+        (r"readconfig\.c", r"k < \*size-1", nfiles + 1), (r"mergefiles\.c", r"i < num_dirs", nf + 3), (r"mergefiles\.c", r"k < num_dirs", nf + 3),
+        (r"mergefiles\.c", r"while \(config_dirs\[i\]", 3), (r"mergefiles\.c", r"while\(\*key_files\)", nfiles + 1), (r"mergefiles\.c", r"while \(\*double_key_files\)", nfiles + 1),
+        (r"d_hist\.c", r"s < MAXFILES|s < nseq|t < nseq|i < nfi|l < nl|c < NF|oc < NF|a < NF|b >= 0|l >= 0", nfiles + 2),
+        (r"vfs_cbmc\.c", r"i < vfs_n|t < vfs_n|s < 2|i < cnt|j >= 0|p >= 0", layers * (nf + 3) + 3), (r"libeconf\.c", r"strsep\(&in_entry", layers + 2), (r"libeconf\.c", r"strsep\(&in_opt", 3)]
+    return Instance(name, "d_hist.c", d, unwind=41, unwindset=uw, timeout=timeout, mem_gb=8, leak_check=True, gen_files={"layout.h": hdr},
+                    flags=["--max-field-sensitivity-array-size", "300"],
+                    functions="econf_%s, readConfigWithCallback, readConfigHistoryWithCallback, traverse_conf_dirs, check_conf_dir, merge_econf_files, econf_mergeFiles (+ contract of read_file_with_callback)" % ENTRYNAMES[entry],
+                    bounds="%d layers; concrete pattern per layer [main file: 0 none/1 with content/2 empty/3 link to /dev/null, drop-in dir exists, presence of each candidate of %s] = %s; every file defines one key (k1 or k2, concrete per instance) with a symbolic value; suffix argument %r; %s"
+                           % (layers, names, pat, suffix, "verdict per file symbolic in {ok, callback rejects, malformed, foreign owner}" if faults else "all files acceptable"),
+                    expect_reach=[], sample_decoder=lambda inp, inst, L=layers: {"contentless_main_is_empty_file": [inp[3 * l] & 1 if 3 * l < len(inp) else 0 for l in range(L)], "value_seed_per_layer": [inp[3 * l + 2] if 3 * l + 2 < len(inp) else 0 for l in range(L)], "key_bits": list(inp[-3:-1]), "verdicts": list(inp[3 * L:3 * L + L * 4])})
+
+def d_patterns(layers, nf, n, rng):
+    import itertools
+    w = nf + 2
+    must = [[1] * (layers * w), [2] + [1] * (layers * w - 1), [1] * ((layers - 1) * w) + [3] + [1] * (w - 1),                                   # everything exists: every drop-in of a lower layer is masked
+            ([0, 1] + [1] * nf) * layers,                        # no main file anywhere, first drop-in masked
+            [0] * (layers * w),                                   # nothing exists
+            ([1, 0] + [0] * nf) + [0] * ((layers - 1) * w),      # main file only in the lowest layer
+            ([1, 1, 1, 0, 1] + [0] * (nf - 3)) + ([0, 1, 0, 1, 1] + [0] * (nf - 3)) * (layers - 1)]
+    out = []
+    for p in must:
+        if p not in out: out.append(p)
+    while len(out) < n:
+        p = [rng.randint(0, 1) for _ in range(layers * w)]
+        for l in range(layers):
+            if p[l * w] and rng.random() < 0.4: p[l * w] = rng.choice([2, 3])
+        if p not in out: out.append(p)
+    return [[p[l * w:(l + 1) * w] for l in range(layers)] for p in out[:n]]
+
+def c01(tier):
+    import random
+    seed = int(__import__("os").environ.get("VERIF_SEED", "0") or 0)
+    rng = random.Random(500 + seed)
+    insts = []
+    if tier == "quick":
+        for entry, layers, ns, n in ((3, 2, "A", 6), (5, 3, "A", 5), (2, 2, "B", 3), (4, 3, "C", 3), (1, 2, "A", 3)):
+            for pi, pat in enumerate(d_patterns(layers, 3, n, rng)):
+                insts.append(d_inst(entry, layers, ns, pat, keysel="first-unique" if pi < 5 else None))
+        insts.append(d_inst(3, 2, "A", [[1, 1, 1, 1, 1], [0, 1, 1, 1, 0]], suffix=".conf"))
+        insts.append(d_inst(3, 2, "B", [[0, 1, 1, 1, 1], [1, 1, 1, 0, 1]], suffix=None))
+        insts.append(d_inst(5, 3, "B", [[1, 1, 1, 1, 1], [0, 1, 0, 1, 1], [0, 0, 1, 0, 0]], suffix=""))
+    else:
+        for entry in range(6):
+            layers = 2 if entry < 4 else 3
+            for ns in ("A", "B", "C"):
+                for pi, pat in enumerate(d_patterns(layers, 3, 64 if layers == 2 else 40, rng)):
+                    insts.append(d_inst(entry, layers, ns, pat, timeout=600, keysel="first-unique" if pi < 5 else None))
+            for suf in (".conf", None, ""):
+                for pat in d_patterns(layers, 3, 6, rng):
+                    insts.append(d_inst(entry, layers, "B", pat, suffix=suf, timeout=600))
+    return {"instances": insts, "assumptions": COMMON_ASSUME + [
+        "decomposition (DESIGN.md 5.3): read_file_with_callback is replaced by its contract in the CBMC query (established for the real reader by the C06/C16 reader harness); parsing and pairwise merging semantics come from C02/C03; the native replay of every witness runs the real reader and parser on a real directory tree",
+        "drop-in presence patterns are concrete per instance (enumerated / sampled by VERIF_SEED); main-file states and drop-in directory presence are symbolic",
+        "scandir model delivers '.', '..' and the present children in nondeterministic (forward or reverse) order and sorts with the caller's comparator; alphasort = strcmp (C locale)"],
+        "explanation": "bounded model checking of the layered read (history builder, drop-in scan, masking, fold) against the reference consulted sequence and reference merge"}
+
+REGISTRY = {"C01": c01, "C02": c02, "C10": c10, "C11": c11, "C03": c03, "C04": c04, "C08": c08, "C09": c09}
 
 def get(prop, tier):
     if prop not in REGISTRY:
